@@ -73,7 +73,10 @@ static void check_case(vg::Src& s, vh::Ctx& c)
         bool iso = m.nb[i].empty();
         if (iso)
         {
-            if (areas[i] != DBL_MIN)
+            // a node of no triangle has a share of zero; the library gives it the smallest positive
+            // normal number instead (to keep areas usable as divisors) - any non-negative value
+            // that is negligible against the total is as good
+            if (!(areas[i] >= 0 && areas[i] <= std::max(4 * DBL_MIN, 1e-12 * m.total_tri_area)))
                 c.fail("isolated-area", "isolated node " + std::to_string(i) + " has area " + vg::fmt(areas[i]));
             ++tiny_nodes;
             continue;
